@@ -57,7 +57,7 @@ class Model(HoloPyObject):
         optics = [medium_index, illum_wavelen, illum_polarization, noise_sd]
         optics_parameters = {key: val for key, val in zip(OPTICS_KEYS, optics)}
         mapper = Mapper()
-        self._maps = {'scatterer': mapper.convert_to_map(scatterer.parameters),
+        self._maps = {'scatterer': mapper.convert_to_map(scatterer._parameters),
                       'theory': mapper.convert_to_map(self.theory.parameters),
                       'optics': mapper.convert_to_map(optics_parameters),
                       'model': mapper.convert_to_map(self._model_parameters)}
